@@ -40,7 +40,9 @@ def r1_label_source(chk: Check) -> None:
                 continue
             n += 1
             st = stmt_of(c)
-            data_src = _nearest_assignment(st, "data", owner.node) if st is not None else None
+            # the template value this case is built from: Case(**<data>.kwargs, ...)
+            splat = next((k.value for k in c.keywords if k.arg is None and isinstance(k.value, ast.Attribute) and k.value.attr == "kwargs" and isinstance(k.value.value, ast.Name)), None)
+            data_src = _nearest_assignment(st, splat.value.id, owner.node) if st is not None and splat is not None else None  # type: ignore[attr-defined]
             meta = kwarg(c, "meta")
             gi = next((x for x in ast.walk(meta) if isinstance(x, ast.Call) and last_attr(x) == "GenerationInfo"), None) if meta is not None else None
             mode = kwarg(gi, "mode") if gi is not None else None
@@ -100,12 +102,12 @@ def r1_label_source(chk: Check) -> None:
             st = stmt_of(c)
             # duplicate query parameter / missing required parameter
             v = kwarg(c, "value")
-            if v is not None and (("[value, value]" in unparse(v)) or ("if k != name" in unparse(v))):
+            if v is not None and (phas("[$v, $v]", v) or any(isinstance(x, ast.DictComp) and any(phas("$k != $n", i) for g_ in x.generators for i in g_.ifs) for x in ast.walk(v))):
                 chk.decide(dotted(kwarg(c, "generation_mode")) == "GenerationMode.NEGATIVE", "C03.R1", fn, f"structural negative: {unparse(v, 50)}", "a duplicated / removed parameter is labelled positive at component level", fn.loc(c))
     # Template bookkeeping: add_parameter turns the component negative when any of its values is negative
     ap = P.func(f"{BUILDER}:Template.add_parameter")
-    t = unparse(ap.node, 100000)
-    chk.expect("elif value.generation_mode == GenerationMode.NEGATIVE:" in t and "info.mode = GenerationMode.NEGATIVE" in t, "C03.R1", ap, "component becomes NEGATIVE once a negative value is added", "bookkeeping shape not recognised", ap.loc())
+    turns = [n for n, b in ptests("$v.generation_mode == GenerationMode.NEGATIVE", ap.node) if isinstance(n, ast.If) and name_of(b, "v") in params_of(ap.node) and phas("$i.mode = GenerationMode.NEGATIVE", n.body)]
+    chk.expect(bool(turns), "C03.R1", ap, "component becomes NEGATIVE once a negative value is added", "bookkeeping shape not recognised", ap.loc())
     for name in ("with_body", "with_parameter"):
         f = P.func(f"{BUILDER}:Template.{name}")
         t = unparse(f.node, 100000)
@@ -198,8 +200,8 @@ def r2_yield_discipline(chk: Check) -> None:
             wrong = "POSITIVE" if pol == "NEGATIVE" else "NEGATIVE"
             under_wrong = any(isinstance(a, ast.If) and f"GenerationMode.{wrong} in ctx.generation_modes" in unparse(a.test, 200) and any(is_within(y, s) for s in a.body) for a in ancestors(y))
             chk.decide(False if under_wrong else None, "C03.R2", csi, construct, f"{pol.lower()} values are produced when only {wrong.lower()} mode is requested", csi.loc(y))
-    nctx = [v for _, v in assignments_to(csi.node, "nctx") if v is not None]
-    chk.expect(bool(nctx) and all(unparse(v) == "ctx.with_negative()" for v in nctx), "C03.R2", csi, "nctx = ctx.with_negative()", "negative recursion context not recognised", csi.loc())
+    nctx = pfind("$n = $c.with_negative()", csi.node)
+    chk.expect(bool(nctx) and all(is_var(b["c"], params_of(csi.node)[0]) for _n, b in nctx), "C03.R2", csi, "nctx = ctx.with_negative()", "negative recursion context not recognised", csi.loc())
     wn = P.func(f"{COV}:CoverageContext.with_negative")
     chk.expect("generation_modes=[GenerationMode.NEGATIVE]" in unparse(wn.node, 2000), "C03.R2", wn, "with_negative() restricts to NEGATIVE", "shape not recognised", wn.loc())
     if n < 60:
